@@ -210,9 +210,9 @@ def execute(case, res):
                     continue
                 w.dc.append(d)          # a dataset that was mutated outside any collection joins it: from now on it must announce
                 res.probe('joined_collection_later')
-                if w.quiescent():
-                    base[id(d)] = snap(d)
-                    del sink[:]
+                # what happened to it before it had a hub could not be announced: the comparison starts here
+                base[id(d)] = snap(d)
+                replaces[:] = [r for r in replaces if r[0] is not d]
             elif k in ('add', 'add_bad'):
                 d = target = pick(op[1])
                 if d is None:
